@@ -1197,6 +1197,12 @@ class Gen:
         self.ids = rng.sample(range(1, 900), 200)
         if rng.random() < 0.6:
             self.ids.insert(len(self.ids) - rng.randrange(0, 3), 0)     # identifier 0 is a valid identifier
+        # identifiers are 64-bit: date-prefixed mission keys and values beyond 2**31 / 2**32 (gen pops from the end);
+        # 2**32 + small and 2**31 + small would collide with small identifiers if a 32-bit buffer were used
+        big = [20260930000123, 2 ** 31 + 7, 2 ** 32 + rng.randrange(1, 900), 2 ** 31, 2 ** 53 + 1, 2 ** 62 + 11]
+        rng.shuffle(big)
+        for b in big[:rng.randint(2, 4)]:
+            self.ids.insert(len(self.ids) - rng.randrange(0, 12), b)
         self.nbase = {0: 0, 1: 0}          # next file name per directory
         self.nout = 0
         self.plan = {}                      # path -> (sig, ident)
